@@ -14,6 +14,7 @@ import Driver.C15
 import Driver.C16
 import Driver.C17
 import Driver.C18
+import Driver.C20
 /-!
 `pmdriver`: reads one case per line (`<verb> args…`), answers one line per case.
 Unknown verbs / unparsable arguments are answered `bad-op` (never defaulted).
@@ -28,7 +29,7 @@ def step (st : DState) (line : String) : DState × String :=
   match toks with
   | [] => (st, "bad-op")
   | _ =>
-    let hs : List (List String → Option String) := [Driver.C01.handle, Driver.C02.handle, Driver.C03.handle, Driver.C04.handle, Driver.C05.handle, Driver.C06.handle, Driver.C07.handle, Driver.C08.handle, Driver.C11.handle, Driver.C12.handle, Driver.C14.handle, Driver.C15.handle, Driver.C16.handle, Driver.C17.handle, Driver.C18.handle]
+    let hs : List (List String → Option String) := [Driver.C01.handle, Driver.C02.handle, Driver.C03.handle, Driver.C04.handle, Driver.C05.handle, Driver.C06.handle, Driver.C07.handle, Driver.C08.handle, Driver.C11.handle, Driver.C12.handle, Driver.C14.handle, Driver.C15.handle, Driver.C16.handle, Driver.C17.handle, Driver.C18.handle, Driver.C20.handle]
     match hs.findSome? (fun h => h toks) with
     | some r => (st, r)
     | none => (st, "bad-op")
